@@ -334,9 +334,17 @@ impl SubsetTable<'_> for LigCaretList<'_> {
                 continue;
             };
 
-            lig_glyphs.subset_offset(idx, s, plan, ())?;
-            count += 1;
-            retained_glyphs.push(new_gid.to_u32());
+            // a ligature glyph without caret values subsets to empty: skip it, don't error out
+            match lig_glyphs.subset_offset(idx, s, plan, ()) {
+                Ok(()) => {
+                    count += 1;
+                    retained_glyphs.push(new_gid.to_u32());
+                }
+                Err(SerializeErrorFlags::SERIALIZE_ERROR_EMPTY) => (),
+                Err(e) => {
+                    return Err(e);
+                }
+            }
         }
 
         if retained_glyphs.is_empty() {
@@ -619,6 +627,49 @@ mod test {
         assert_eq!(store.item_variation_data_count(), 1);
         let var_data = store.item_variation_data().get(0).unwrap().unwrap();
         assert_eq!(var_data.item_count(), 1);
+    }
+
+    #[test]
+    fn test_subset_lig_caret_list_skips_lig_glyph_without_carets() {
+        use write_fonts::read::{FontData, FontRead};
+        // LigCaretList: coverage [1, 2]; glyph 1 has no caret value, glyph 2 has one (format 1, 500)
+        let bytes: [u8; 24] = [
+            0x00, 0x08, 0x00, 0x02, 0x00, 0x10, 0x00, 0x12, // coverage offset, count, 2 offsets
+            0x00, 0x01, 0x00, 0x02, 0x00, 0x01, 0x00, 0x02, // coverage format 1: glyphs 1, 2
+            0x00, 0x00, // LigGlyph of glyph 1: caret count 0
+            0x00, 0x01, 0x00, 0x04, // LigGlyph of glyph 2: one caret value at +4
+            0x00, 0x01,
+        ];
+        let mut data = bytes.to_vec();
+        data.extend_from_slice(&[0x01, 0xf4]);
+        let lig_caret_list = LigCaretList::read(FontData::new(&data)).unwrap();
+
+        let mut plan = Plan {
+            font_num_glyphs: 3,
+            ..Default::default()
+        };
+        for g in 0..3_u32 {
+            plan.glyphset_gsub.insert(GlyphId::from(g));
+            plan.glyph_map_gsub.insert(GlyphId::from(g), GlyphId::from(g));
+        }
+
+        let mut s = Serializer::new(1024);
+        assert_eq!(s.start_serialize(), Ok(()));
+        assert_eq!(lig_caret_list.subset(&plan, &mut s, ()), Ok(()));
+        assert!(!s.in_error());
+        s.end_serialize();
+        let out = s.copy_bytes();
+
+        let subset = LigCaretList::read(FontData::new(&out)).unwrap();
+        assert_eq!(subset.lig_glyph_count(), 1);
+        let coverage = subset.coverage().unwrap();
+        assert_eq!(coverage.get(GlyphId::from(1_u32)), None);
+        assert_eq!(coverage.get(GlyphId::from(2_u32)), Some(0));
+        let lig_glyph = subset.lig_glyphs().get(0).unwrap();
+        let CaretValue::Format1(caret) = lig_glyph.caret_values().get(0).unwrap() else {
+            panic!("caret value format 1 expected")
+        };
+        assert_eq!(caret.coordinate(), 500);
     }
 
     #[test]
